@@ -1194,6 +1194,8 @@ def build_spec(g):
     g.assign_expr("ground_heat_exchangers.py", SIM, "n_hours", "hourly_n_hours", ["n_months"], index=0)
     g.assign_expr("ground_heat_exchangers.py", SIM, "n_years", "hourly_n_years", ["n_hours"])
     g.assign_expr("ground_heat_exchangers.py", SIM, "q_dot", "hourly_tile", ["q_dot", "n_years", "n_hours"], ptypes={"q_dot": "list Q"}, index=3)
+    # ---- GHE.size: the height left on the object is the value the root solver returned ----
+    g.assign_expr("ground_heat_exchangers.py", "GHE.size", "self.bhe.b.H", "size_stored_height", ["returned_height"], index=1)
     g.assign_expr("utilities.py", "solve_root", "kg_minus_sign", "root_sign", ["minus"])
     g.assign_expr("utilities.py", "solve_root", "kg_plus_sign", "root_sign_plus", ["plus"])
     g.func("search_routines.py", "Bisection1D.retrieve_flow", coqname="retrieve_flow", rettype="tuple", raises=True,
